@@ -20,6 +20,7 @@ import (
 	"os"
 	"slices"
 
+	"mvdan.cc/garble/internal/ctrlflow"
 	"mvdan.cc/garble/internal/literals"
 )
 
@@ -280,6 +281,20 @@ func verifHandle(r *verifReq) (resp map[string]any) {
 		resp["flags"] = flagSetValue(slices.Clone(r.Args), r.S, r.S2)
 	case "hashelp":
 		resp["out"] = hasHelpFlag(r.Args)
+	case "cfdump":
+		// S = Go source, S2 = pass name, Name = generator seed (decimal), Args[0] = count
+		var seed int64
+		fmt.Sscan(r.Name, &seed)
+		count := 0
+		if len(r.Args) > 0 {
+			fmt.Sscan(r.Args[0], &count)
+		}
+		funcs, err := ctrlflow.VerifDump(r.S, seed, r.S2, count)
+		if err != nil {
+			resp["err"] = err.Error()
+		} else {
+			resp["funcs"] = funcs
+		}
 	case "rxgarble":
 		resp["out"] = rxGarbleFlag.MatchString(r.S)
 	default:
